@@ -2,7 +2,8 @@ CONSTANTS
   MCTrees <- MCTreesQuick
   KeepFirstError = TRUE
   RecoverPerStage = TRUE
+  FirstErrorWins = TRUE
 SPECIFICATION MCSpec
-INVARIANTS AtMostOnce OnlyAfterAll OnlyAfterAllStrong ErrorReported ExactlyOnceAtEnd PendingSane
+INVARIANTS AtMostOnce OnlyAfterAll OnlyAfterAllStrong ErrorReported ExactlyOnceAtEnd PendingSane PreOrderOK NoOpAfterFailure FailureIsOutcome WalkComplete
 PROPERTY Terminates
 CHECK_DEADLOCK FALSE
